@@ -341,7 +341,7 @@ class CHECK(vlib.Check):
             "table while an iterator is live and advances it afterwards, or crosses an index-width boundary.")
 
     def gen_cases(self, rng, tier):
-        n = 1200 if tier == "quick" else 14000
+        n = 1200 if tier == "quick" else 8000
         out = [("directed", c) for c in DIRECTED]
         for i in range(n):
             var = "PKV"[i % 3] if i % 4 else "P"
@@ -349,14 +349,14 @@ class CHECK(vlib.Check):
             nt = rng.choice([1, 2, 2, 3]); ni = rng.choice([2, 4, 5])
             length = rng.choice([8, 15, 25, 40, 70])
             out.append(("random", header(var, coll, nt, ni) + "|" + ";".join(gen_ops(rng, length, var, nt, ni))))
-        for i in range(150 if tier == "quick" else 2000):
+        for i in range(150 if tier == "quick" else 1500):
             var = "PKV"[i % 3]
             out.append(("traversal", traversal_case(rng, var, rng.randint(0, 1), rng.choice([0, 1, 2, 3, 5, 8, 13, 30]), rng.randint(0, 1))))
-        for i in range(300 if tier == "quick" else 4000):
+        for i in range(300 if tier == "quick" else 2000):
             out.append(("parked", parked_case(rng, "PKV"[i % 3], 1 if rng.random() < 0.3 else 0)))
-        for i in range(4 if tier == "quick" else 24):
+        for i in range(4 if tier == "quick" else 12):
             out.append(("grow", grow_case(rng, "PKV"[i % 3], 1 if i % 4 == 3 else 0, rng.choice([260, 300, 470]))))
-        for i in range(1 if tier == "quick" else 6):
+        for i in range(1 if tier == "quick" else 3):
             out.append(("big", big_case(rng, "PKV"[i % 3], 1 if i == 4 else 0)))
         return out
 
